@@ -144,6 +144,13 @@ class PropZoo(Expr):
     hidden: int = field(default=0, compare=False)
 
 
+@dataclass(frozen=True, slots=True)
+class Slotted(Expr):
+    """a slotted node class (dataclass re-creates the class object: its name is registered twice)"""
+
+    v: int = 0
+
+
 @dataclass(frozen=True)
 class Picky(Expr):
     """a node class with its own validation: construction with v == 13 raises its own error"""
@@ -183,6 +190,7 @@ CHILD_FIELDS: dict[type, list[tuple[str, bool]]] = {
     PropZoo: [],
     Two: [],
     Picky: [],
+    Slotted: [],
 }
 ALL_CLASSES = list(CHILD_FIELDS)
 LEAF_CLASSES = [Leaf, Leaf2, Falsy, PropZoo, Two]
@@ -284,8 +292,10 @@ class Gen:
                         tf=tuple(frozenset(r.choice("abcdefgh") for _ in range(r.randint(0, 3)))
                                  for _ in range(r.randint(0, 2))),
                         hidden=r.randint(0, 1), origin=o)
-        elif k < 0.97:
+        elif k < 0.95:
             n = Two(a=gen_str(r), b=gen_str(r), origin=o)
+        elif k < 0.98:
+            n = Slotted(v=r.randint(0, 3), origin=o)
         else:
             n = Expr(origin=o)
         self.pool.append(n)
